@@ -505,10 +505,13 @@ def check_solve(u, problem, res, stats, want):
                             for r in d["req"]:
                                 mentioned |= set(sp.vs[v]["name"] for v in sp.req_vsets(r))
                             mentioned |= set(sp.vs[v]["name"] for v in d["con"])
-                    poison = sorted(set(a for a in before if lapsed(a) and sp.sv[a]["name"] in mentioned))
+                    # ... or that any other requirement fetched in the meantime (the package-level clause then exists while the
+                    # exempt solvable is installed, and conflicts in every later run_sat)
+                    fetched = set(c[1] for c in res.get("calls", []) if c[0] == 0)
+                    poison = sorted(set(a for a in before if lapsed(a) and (sp.sv[a]["name"] in mentioned or sp.sv[a]["name"] in fetched)))
                     if poison:
                         what = ("EXEMPTION LAPSES: soft solvable (requirement #K) skipped because its dependencies mention the package of an earlier accepted soft solvable "
-                                "that is excluded/locked out by its own package; fetching that package adds the exclusion/lock clause against the installed solvable")
+                                "that is excluded/locked out by its own package (or that package was fetched for another requirement); fetching that package adds the exclusion/lock clause against the installed solvable")
                         what += " [s%d skipped, exempt s%s, solution %s]" % (x, poison, sorted(sol))
                     else:
                         what = "soft solvable s%d (requirement #%d) was skipped although its first-ranked closure is consistent with the conflict-free hard solution and the soft solvables accepted before it %s, and the returned solution %s can be extended with it (z3)" % (x, k + 1, before, sorted(sol))
